@@ -34,6 +34,9 @@ pub mod kjson {
         fn null() -> Self { J::Null }
     }
 
+    // the public API (provided methods of the JsonPath trait) over the second implementation
+    impl crate::JsonPath for J {}
+
     pub fn from_value(v: &Value) -> J {
         match v {
             Value::Null => J::Null,
